@@ -62,7 +62,41 @@ fn final_answer(bin: &str, script: &[Cmd]) -> Result<(Option<bool>, String, Vec<
     Ok((mate_score(&last.0), last.1, out.log_tail))
 }
 
+/// "Wrap" histories: one earlier game searches X and then M itself (so that, X being a repetition, the memory
+/// holds another move than K for M), followed by exactly 256, 512, 768 or 65536 new games and the judged search:
+/// whatever counts games must not wrap round into that memory.
+fn wrap_history(rng: &mut gen::R, c: &Case) -> Vec<Cmd> {
+    let mut s = vec![Cmd::Uci];
+    if rng.gen_bool(0.3) {
+        s.push(Cmd::NewGame);
+    }
+    s.push(Cmd::Position { fen: Some(c.x.fen()), moves: vec![] });
+    s.push(Cmd::Go { spec: format!("depth {}", rng.gen_range(1..=3)), wait: true });
+    s.push(Cmd::Position { fen: Some(c.m.fen()), moves: vec![] });
+    s.push(Cmd::Go { spec: format!("depth {} movetime 120000", rng.gen_range(4..=6)), wait: true });
+    if rng.gen_bool(0.5) {
+        s.push(Cmd::Stop);
+    }
+    let k = [256usize, 256, 512, 768, 65536][rng.gen_range(0..5)];
+    let mut bulk = String::new();
+    for i in 0..k - 1 {
+        if i > 0 {
+            bulk.push('\n');
+        }
+        bulk.push_str("ucinewgame");
+    }
+    s.push(Cmd::Raw(bulk));
+    s.push(Cmd::NewGame);
+    s.push(Cmd::Position { fen: Some(c.m.fen()), moves: vec![] });
+    s.push(Cmd::Go { spec: JUDGED_GO.into(), wait: true });
+    s.push(Cmd::Quit);
+    s
+}
+
 pub fn history(rng: &mut gen::R, c: &Case, tb: &Tablebases) -> Vec<Cmd> {
+    if rng.gen_bool(0.2) {
+        return wrap_history(rng, c);
+    }
     let mut s = vec![Cmd::Uci];
     let games = rng.gen_range(1..=3);
     for g in 0..games {
@@ -124,6 +158,18 @@ pub fn history(rng: &mut gen::R, c: &Case, tb: &Tablebases) -> Vec<Cmd> {
         _ => {}
     }
     let _ = tb;
+    // many new games in a row (a counter of games must not wrap into an earlier game's memory)
+    if rng.gen_bool(0.3) {
+        let k = [2usize, 3, 17, 255, 256, 257, 511, 512, 513, 1024, 65536, 65537][rng.gen_range(0..12)];
+        let mut bulk = String::new();
+        for i in 0..k - 1 {
+            if i > 0 {
+                bulk.push('\n');
+            }
+            bulk.push_str("ucinewgame");
+        }
+        s.push(Cmd::Raw(bulk));
+    }
     s.push(Cmd::NewGame);
     // the new game may begin with commands that do not search: a book answer, isready, a stray stop
     match rng.gen_range(0..6) {
@@ -163,6 +209,9 @@ pub fn run_case(bin: &str, c: &Case, script: &[Cmd], rep: &mut Report) -> bool {
     rep.count("histories", 1);
     if c.x.legal_moves().is_empty() {
         rep.count("histories_with_a_final_position_searched_earlier", 1);
+    }
+    if script.iter().any(|c| matches!(c, Cmd::Raw(l) if l.matches("ucinewgame").count() >= 254)) {
+        rep.count("histories_with_255_or_more_new_games_in_a_row", 1);
     }
     let text: Vec<String> = script.iter().map(cmd_text).collect();
     match final_answer(bin, script) {
